@@ -151,6 +151,15 @@ class GpLinearInverter:
         """
         K = self.cov.build_covariance(theta[self.cov_slice])
         prior_mean = self.mean.build_mean(theta[self.mean_slice])
+        if self.A.shape[0] <= self.A.shape[1]:
+            # no more data than parameters: work in the space of the data, where
+            # A K A^T + sigma is symmetric and as well conditioned as the problem is.
+            # (I + K W below has a condition number of (prior amplitude / data error)**2
+            # in this case, however well determined the problem)
+            L = cholesky(self.A @ K @ self.A.T + self.sigma)
+            B = solve_triangular(L, self.A @ K, lower=True)
+            v = solve_triangular(L, self.y - self.A @ prior_mean, lower=True)
+            return prior_mean + B.T @ v, K - B.T @ B
         W = self.A.T @ self.inv_sigma @ self.A
         u = self.A.T @ (self.inv_sigma @ (self.y - self.A @ prior_mean))
         posterior_cov = solve(self.I + K @ W, K)
@@ -170,6 +179,11 @@ class GpLinearInverter:
         """
         K = self.cov.build_covariance(theta[self.cov_slice])
         prior_mean = self.mean.build_mean(theta[self.mean_slice])
+        if self.A.shape[0] <= self.A.shape[1]:
+            # (as in calculate_posterior)
+            L = cholesky(self.A @ K @ self.A.T + self.sigma)
+            v = solve_triangular(L, self.y - self.A @ prior_mean, lower=True)
+            return prior_mean + K @ (self.A.T @ solve_triangular(L.T, v, lower=False))
         u = self.A.T @ (self.inv_sigma @ (self.y - self.A @ prior_mean))
         W = self.A.T @ self.inv_sigma @ self.A
         return solve(self.I + K @ W, K @ u) + prior_mean
